@@ -479,7 +479,8 @@ class DHEat:
             # Close all sockets that are in the exception state.
             for s in elist:
                 # out.d("Socket in exception list.", write_now=True)
-                _close_socket(socket_dict, s)
+                if s in socket_dict:  # A socket that was readable as well (i.e.: urgent data followed by a reset) was already closed above.
+                    _close_socket(socket_dict, s)
 
         # Close any remaining sockets.
         while True:
